@@ -124,6 +124,25 @@ def _call(it, e, env):
         for v in argv:
             it.c.facts.setdefault("reduce_sites", []).append((f.key, e, "operator.iadd", v))
         return outs[0] if len(outs) == 1 else V("tuple", tup=outs)
+    if isinstance(fexpr, ast.Name) and fexpr.id in env and env[fexpr.id].k == "func" and env[fexpr.id].note in ("operator.add", "operator.iadd") and len(argv) >= 2:
+        return it.binop(ast.Add(), argv[0], argv[1], e)
+    # ---- helpers that fold a list by a tree reduction (COVER decides whether they cover it; here: the type of a fold) -----
+    if isinstance(fexpr, ast.Name) and fexpr.id not in env:
+        obj_ = P.resolve_pkg_name(d)
+        if obj_ is not None and hasattr(obj_, "node") and not isinstance(obj_, ClassInfo):
+            from . import cover as _cover
+            ff = _cover.is_fold_function(P, obj_)
+            if ff is not None:
+                b_ = P.bind_args(obj_, args, kws)
+                la = b_.get(ff[0])
+                lv = it.ev(la, env) if la is not None else None
+                if lv is not None and lv.k == "list" and lv.elem is not None:
+                    el = lv.elem
+                    if any_part([el]):
+                        it.c.fold_sites.append((f.key, e, el))
+                        if it.c.track_s and el.is_numlike and not el.wild and not el.is_unk and el.s == 0:
+                            it.violation("EXT.D4", e, f"per-block values of type {fmt(el)} are summed over the blocks by `{name}`: they are intensive (S^0)")
+                    return mark_part(el, False)
     # ---- repository callees -----------------------------------------------------------------------
     if isinstance(fexpr, ast.Name) and fexpr.id == "cls" and f.cls is not None:
         return V("obj", obj=f.cls.name)
@@ -189,7 +208,7 @@ def _call(it, e, env):
         if b == "enumerate":
             return V("tuple", tup=(argv[0],), note="enumerate")
         if b in ("list", "tuple", "sorted", "reversed", "iter"):
-            return argv[0] if argv else V("list", axis="empty")
+            return argv[0] if argv else (V("tuple", tup=()) if b == "tuple" else V("list", axis="empty"))
         if b == "next":
             v = argv[0] if argv else unk()
             if v.k == "list" and v.elem is not None:
@@ -218,6 +237,8 @@ def _call(it, e, env):
     if d in ("dask.compute",):
         return V("tuple", tup=tuple(argv)) if not starred else unk("dask.compute(*list)")
     if d in ("dask.delayed", "dask.delayed.delayed"):
+        if args and (P.dotted(args[0], f) or "") in ("operator.add", "operator.iadd"):
+            return V("func", note=P.dotted(args[0], f))  # a named task constructor: delayed_add = dask.delayed(operator.add)
         return argv[0] if argv else unk()
     if d == "functools.reduce" and len(argv) >= 2:
         opn = src(args[0])
@@ -361,6 +382,8 @@ def reshape(it, base, e, env, argv):
             kinds.append(a.count_of)
         elif a.is_numlike and a.cval == -1:
             kinds.append("?")
+        elif a.is_numlike and a.wild and a.cval == 1:
+            kinds.append("1")
         else:
             kinds.append("?")
     # (C*D, r) -> F
@@ -392,8 +415,14 @@ def numpy_call(it, fn, d, e, env, argv, kw, args):
         return V("tuple", tup=tp, note="shape")
     if fn == "atleast_2d" and a0 is not None and a0.is_numlike and a0.sh is not None and len(a0.sh) == 1:
         return a0.copy(sh=("N",) + tuple(a0.sh))  # a single vector becomes a batch of one sample
-    if fn in ("atleast_2d", "atleast_1d", "asarray", "asanyarray", "ascontiguousarray", "squeeze", "nan_to_num", "abs", "absolute", "fabs", "copy", "float64", "real"):
+    if fn in ("atleast_2d", "atleast_1d", "asarray", "asanyarray", "ascontiguousarray", "squeeze", "nan_to_num", "abs", "absolute", "fabs", "copy", "float64", "real") and not (fn in ("asarray", "asanyarray") and a0 is not None and a0.k in ("list", "tuple")):
         return a0 if a0 is not None else unk()
+    if fn == "arange" and argv:
+        cnt = argv[-1] if len(argv) <= 2 else argv[1]
+        ax = cnt.count_of if cnt.is_numlike and cnt.count_of else "?"
+        return V("num", wild=True, index_of=ax, sh=(ax,))
+    if fn in ("array", "asarray", "asanyarray") and a0 is not None and a0.k in ("list", "tuple"):
+        fn = "array"
     if fn == "array":
         if a0 is None:
             return unk()
@@ -503,6 +532,16 @@ def numpy_call(it, fn, d, e, env, argv, kw, args):
             if o.is_numlike and a0.is_numlike:
                 it.agree(a0, o, e, "clip bound")
         return a0.copy(cval=None) if a0.is_numlike else a0
+    if fn in ("argsort", "lexsort") and a0 is not None:
+        base_ = a0 if a0.is_numlike else (a0.elem if a0.k in ("list", "tuple") and getattr(a0, "elem", None) is not None else None)
+        sh_ = a0.sh if a0.is_numlike else None
+        return V("num", wild=True, index_of=(sh_[0] if sh_ else (a0.axis if a0.k == "list" and a0.axis else "?")), sh=sh_ if sh_ else ("?",))
+    if fn in ("flatnonzero", "argwhere") and a0 is not None:
+        return V("num", wild=True, index_of=(a0.sh[0] if a0.sh else "?"), sh=("?",))
+    if fn == "nonzero" and a0 is not None:
+        return V("tuple", tup=(V("num", wild=True, index_of=(a0.sh[0] if a0.sh else "?"), sh=("?",)),))
+    if fn in ("split", "array_split") and a0 is not None and a0.is_numlike:
+        return V("list", axis="?", elem=a0.copy(sh=(("?",) + tuple(a0.sh[1:])) if a0.sh else None, cval=None))
     if fn == "where":
         if len(argv) == 1:
             return V("tuple", tup=(V("num", wild=True, index_of=(argv[0].sh[0] if argv[0].sh else "?"), sh=("?",)),))
@@ -551,6 +590,32 @@ def numpy_call(it, fn, d, e, env, argv, kw, args):
             r = reduce_axes(it, a0, axes, e, "int")
             return r.copy(u=lf_scale(r.u, 2)) if r.is_numlike else r
         return reduce_axes(it, a0, axes, e, "int")
+    if fn == "at" and d.split(".")[-2:-1] == ["add"] and len(argv) >= 3 and args and isinstance(args[0], ast.Name):
+        # np.add.at(acc, idx, vals): scatter-add - acc[k] += sum of the vals whose index is k (a grouped sum over the first axis)
+        acc, vals = argv[0], argv[2]
+        if vals.is_numlike and acc.is_numlike:
+            r = reduce_axes(it, vals, 0, e, "sum") if vals.sh else vals
+            if r.is_numlike and not r.is_unk:
+                if not acc.wild and not r.wild and acc.dim_key() != r.dim_key():
+                    it.violation("DIM.D1", e, f"scatter-add of {fmt(r)} into an accumulator of {fmt(acc)}")
+                env[args[0].id] = r.copy(sh=acc.sh, cval=None) if acc.wild or acc.dim_key() == r.dim_key() else acc
+        return V("none")
+    if fn == "at" and len(argv) >= 2:
+        return V("none")
+    if fn == "reduceat" and d.split(".")[-2:-1] == ["add"] and a0 is not None and a0.is_numlike:
+        axv, has = _axis_arg(it, e, env, kw, 2)
+        ax = _axes_from(axv) if has else 0
+        if ax != 0 and not (isinstance(ax, int) and a0.sh and norm_axis(ax, len(a0.sh)) == 0):
+            return unk("reduceat over an axis other than the first")
+        r = reduce_axes(it, a0, 0, e, "sum") if a0.sh else a0
+        return r.copy(sh=("?",) + tuple(r.sh) if r.sh is not None else None) if r.is_numlike else r
+    if fn == "diff" and a0 is not None and a0.is_numlike:
+        return a0.copy(cval=None, count_of=None, index_of=None, sh=a0.sh if a0.sh is None else tuple("?" if i == len(a0.sh) - 1 else k for i, k in enumerate(a0.sh)))
+    if fn == "cumsum" and a0 is not None and a0.is_numlike:
+        return a0.copy(cval=None, count_of=None)
+    if fn == "bincount" and "weights" in kw and kw["weights"].is_numlike:
+        w = kw["weights"]
+        return V("num", w.u, w.s + (1 if it.c.track_s else 0), ("?",), kk=w.kk) if not w.wild else wild(("?",))
     if fn == "bincount":
         ml = kw.get("minlength", argv[1] if len(argv) > 1 else None)
         k = ml.count_of if ml is not None and ml.is_numlike and ml.count_of else (a0.index_of if a0 is not None and a0.index_of else "?")
